@@ -148,7 +148,19 @@ struct Value {
         }
         insert(data, s);
     }
+    // counts the Value(const char*) constructors that are active (nested [scripts] and function(calls) recurse)
+    struct NestingCounter {
+        size_t& depth;
+        explicit NestingCounter(size_t& depth_in) : depth(depth_in) { ++depth; }
+        ~NestingCounter() { --depth; }
+    };
     Value(const char* v, size_t vlen = 0, bool non_numeric = false) {
+        static size_t nesting = 0;
+        NestingCounter nesting_counter(nesting);
+        if (nesting > MAX_BRACKET_DEPTH) {
+            fprintf(stderr, "parse error, expression nested more than %zu deep\n", MAX_BRACKET_DEPTH);
+            exit(1);
+        }
         if (!vlen) vlen = strlen(v);
         if (vlen == 2 && v[0] == '0' && v[1] == 'x') {
             type = T_DATA;
